@@ -528,6 +528,10 @@ func (s *MemoryBackend) ReadUsersetTuples(
 			Object:   filter.Object,
 			Relation: filter.Relation,
 		}) && tupleUtils.GetUserTypeFromUser(t.User) == tupleUtils.UserSet {
+			if len(filter.Conditions) > 0 && !slices.Contains(filter.Conditions, t.ConditionName) {
+				continue
+			}
+
 			if len(filter.AllowedUserTypeRestrictions) == 0 { // 1.0 model.
 				matches = append(matches, t)
 				continue
@@ -538,13 +542,10 @@ func (s *MemoryBackend) ReadUsersetTuples(
 			_, userRelation := tupleUtils.SplitObjectRelation(t.User)
 			for _, allowedType := range filter.AllowedUserTypeRestrictions {
 				if allowedType.GetType() == userType && allowedType.GetRelation() == userRelation {
+					// a tuple is returned once, however many restrictions it matches
 					matches = append(matches, t)
-					continue
+					break
 				}
-			}
-
-			if len(filter.Conditions) > 0 && !slices.Contains(filter.Conditions, t.ConditionName) {
-				continue
 			}
 		}
 	}
